@@ -168,8 +168,13 @@ type c39Params struct {
 	Commit    int    `json:"commit"` // last canonical block whose state is flushed (0 = none)
 	Freeze    int    `json:"freeze"` // freeze threshold (0 = no freezing): blocks <= Len-Freeze are frozen
 	Pivot     int    `json:"pivot"`  // snap sync pivot marker (0 = none)
+	Hist      bool   `json:"hist"`   // an ancient directory exists (path scheme: state histories are kept, states below the disk layer are recoverable)
+	PostOp    int    `json:"postop"` // operation applied after the re-open, before the re-import: -1 none, k >= 0: SetHead(k)
 	Crash     string `json:"crash"`  // "abandon" or "kv@<k>" (set by the driver)
 }
+
+// ancient reports whether the history runs on a database with a real ancient directory.
+func (p c39Params) ancient() bool { return p.Freeze > 0 || p.Hist }
 
 func (p c39Params) option() *BlockChainConfig {
 	o := &BlockChainConfig{
@@ -189,9 +194,14 @@ func (p c39Params) option() *BlockChainConfig {
 	return o
 }
 
-// awaitsStateSync: path scheme, the only durable state is older than the pivot marker.
-func (p c39Params) awaitsStateSync() bool {
-	return p.Scheme == rawdb.PathScheme && p.Pivot > 0 && p.Commit > 0 && p.Commit < p.Pivot
+// statelessGenesisLegit: in the path scheme the genesis state does not survive the
+// first flush. Without a state history store (no ancient directory) nothing can bring
+// it back, so a rewind that has to end at genesis (no durable state at or below the
+// target that may be used) legitimately leaves a stateless genesis that waits for the
+// state syncer (documented in NewBlockChain / setHeadBeyondRoot). With a history store
+// the state is recoverable and the ordinary oracle applies.
+func (p c39Params) statelessGenesisLegit() bool {
+	return p.Scheme == rawdb.PathScheme && !p.ancient() && p.Commit > 0
 }
 
 // c39NoCloseKV keeps an in-memory key-value store alive across Close.
@@ -220,7 +230,7 @@ type c39Inserted struct {
 }
 
 func (h *c39History) openDB() error {
-	if h.p.Freeze > 0 {
+	if h.p.ancient() {
 		db, err := rawdb.Open(c39NoCloseKV{h.kv}, rawdb.OpenOptions{Ancient: h.ancient})
 		if err != nil {
 			return err
@@ -263,7 +273,7 @@ func c39Build(f *c39Forest, p c39Params, record bool, scratch string) (*c39Histo
 	} else {
 		h.kv = memorydb.New()
 	}
-	if p.Freeze > 0 {
+	if p.ancient() {
 		h.ancient = filepath.Join(scratch, "ancient")
 	}
 	if err := h.openDB(); err != nil {
@@ -491,36 +501,59 @@ func c39Recover(f *c39Forest, p c39Params, db ethdb.Database, wantHead []int, pr
 		return rc, fmt.Errorf("re-open failed: %v", e)
 	}
 	rc.chain = chain
-	if p.awaitsStateSync() {
-		// Documented design (NewBlockChain): in the path scheme the genesis state does not
-		// survive the first flush; a chain that is rewound below the snap-sync pivot ends at
-		// a stateless genesis and waits for the state syncer. Nothing can be re-imported.
-		if cur := chain.CurrentBlock(); cur.Hash() != f.genesis.Hash() {
-			return rc, fmt.Errorf("after re-open: flushed state #%d lies below the pivot #%d but the head block is #%d %s, not genesis", p.Commit, p.Pivot, cur.Number, f.nameOf(cur.Hash()))
+	// checkHead: the head block must be one of want; a stateless genesis is accepted
+	// (and ends the case: nothing can be executed) only where it is legitimate.
+	checkHead := func(stage string, want []int) (stop bool, err error) {
+		cur := chain.CurrentBlock()
+		if slices.Contains(want, 0) && p.statelessGenesisLegit() && cur.Hash() == f.genesis.Hash() && !chain.HasState(cur.Root) {
+			rc.awaiting = true
+			return true, nil
 		}
-		rc.awaiting = true
-		return rc, nil
+		if err := rc.invariants(stage); err != nil {
+			var gap *c39GapErr
+			if gapFinding == nil || !errors.As(err, &gap) {
+				return false, err
+			}
+			gapFinding(err.Error())
+		}
+		for _, w := range want {
+			h := f.genesis.Hash()
+			if w > 0 {
+				h = f.canon[w-1].Hash()
+			}
+			if cur.Hash() == h {
+				return false, nil
+			}
+		}
+		return false, fmt.Errorf("%s: head block is #%d %s, the usable durable state belongs to canonical block %v", stage, cur.Number, f.nameOf(cur.Hash()), want)
 	}
-	if err := rc.invariants("after re-open"); err != nil {
-		var gap *c39GapErr
-		if gapFinding == nil || !errors.As(err, &gap) {
+	if stop, err := checkHead("after re-open", wantHead); stop || err != nil {
+		return rc, err
+	}
+	// post-recovery operation: SetHead(k)
+	if p.PostOp >= 0 {
+		before := int(chain.CurrentBlock().Number.Uint64())
+		if e := chain.SetHead(uint64(p.PostOp)); e != nil {
+			return rc, fmt.Errorf("SetHead(%d) after re-open failed: %v", p.PostOp, e)
+		}
+		// Reference: the head block becomes the highest canonical block <= k whose state can
+		// be used: k itself when it is the flushed block or (path scheme with state histories)
+		// any block below the disk layer; otherwise genesis.
+		want := 0
+		switch {
+		case p.PostOp >= before:
+			want = before
+		case p.Scheme == rawdb.PathScheme && p.ancient():
+			want = p.PostOp
+		}
+		if stop, err := checkHead(fmt.Sprintf("after SetHead(%d)", p.PostOp), []int{want}); stop || err != nil {
 			return rc, err
 		}
-		gapFinding(err.Error())
-	}
-	// the head block is the block of the last flushed state
-	cur := chain.CurrentBlock()
-	ok := false
-	for _, w := range wantHead {
-		want := f.genesis.Hash()
-		if w > 0 {
-			want = f.canon[w-1].Hash()
+		if hn := int(chain.CurrentHeader().Number.Uint64()); hn > p.PostOp && hn > want {
+			return rc, fmt.Errorf("after SetHead(%d): head header is still #%d", p.PostOp, hn)
 		}
-		ok = ok || cur.Hash() == want
 	}
-	if !ok {
-		return rc, fmt.Errorf("after re-open: head block is #%d %s, the last durable state belongs to canonical block %v", cur.Number, f.nameOf(cur.Hash()), wantHead)
-	}
+	cur := chain.CurrentBlock()
 	for _, b := range present {
 		if rawdb.ReadHeader(db, b.hash, b.num) == nil || rawdb.ReadBody(db, b.hash, b.num) == nil {
 			return rc, fmt.Errorf("after re-open: block %s whose import had completed before the crash is gone", f.nameOf(b.hash))
@@ -596,11 +629,16 @@ func c39Grid(r *mc.R) (abandon, kvprefix []c39Params) {
 	r.Bound("side_lengths", sides)
 	r.Bound("freeze_thresholds", freezes)
 	r.Bound("kvprefix_max_canonical_len", kvMaxLen)
+	postMaxLen := mc.Pick(r, 3, 5) // post-recovery SetHead(k) dimension only for canonical lengths up to this
+	r.Bound("postop_max_canonical_len", postMaxLen)
 	type sc struct {
 		scheme string
 		snaps  bool
+		hist   bool
 	}
-	schemes := []sc{{rawdb.HashScheme, false}, {rawdb.HashScheme, true}, {rawdb.PathScheme, false}}
+	// path scheme twice: without ancient directory (no state histories: states below the
+	// disk layer are gone for good) and with it (they are recoverable)
+	schemes := []sc{{rawdb.HashScheme, false, false}, {rawdb.HashScheme, true, false}, {rawdb.PathScheme, false, false}, {rawdb.PathScheme, false, true}}
 	for _, s := range schemes {
 		for l := 1; l <= maxLen; l++ {
 			for _, side := range sides {
@@ -617,16 +655,31 @@ func c39Grid(r *mc.R) (abandon, kvprefix []c39Params) {
 							if fr > 0 && fr >= l {
 								continue // nothing would be frozen: same as freeze off
 							}
+							if fr > 0 && s.hist {
+								continue // freezing implies the ancient directory: covered by the hist=false entry
+							}
+							// pivot markers: none, the middle, and just above / well above the flushed block
 							pivots := []int{0}
-							if l >= 2 {
-								pivots = append(pivots, (l+1)/2)
+							for _, pv := range []int{(l + 1) / 2, c + 1, c + 2, l} {
+								if pv >= 1 && pv <= l && !slices.Contains(pivots, pv) && l >= 2 {
+									pivots = append(pivots, pv)
+								}
 							}
 							for _, pv := range pivots {
-								abandon = append(abandon, c39Params{Scheme: s.scheme, Snapshots: s.snaps, Len: l, Side: side, Fork: fk, Commit: c, Freeze: fr, Pivot: pv, Crash: "abandon"})
+								base := c39Params{Scheme: s.scheme, Snapshots: s.snaps, Hist: s.hist, Len: l, Side: side, Fork: fk, Commit: c, Freeze: fr, Pivot: pv, PostOp: -1, Crash: "abandon"}
+								abandon = append(abandon, base)
+								// post-recovery SetHead(k) for every k up to the recovered head block
+								if pv == 0 && l <= postMaxLen {
+									for k := 0; k <= c; k++ {
+										q := base
+										q.PostOp = k
+										abandon = append(abandon, q)
+									}
+								}
 							}
 						}
-						if l <= kvMaxLen && (side == 0 || slices.Contains(kvSides, side)) {
-							kvprefix = append(kvprefix, c39Params{Scheme: s.scheme, Snapshots: s.snaps, Len: l, Side: side, Fork: fk, Commit: c})
+						if l <= kvMaxLen && !s.hist && (side == 0 || slices.Contains(kvSides, side)) {
+							kvprefix = append(kvprefix, c39Params{Scheme: s.scheme, Snapshots: s.snaps, Len: l, Side: side, Fork: fk, Commit: c, PostOp: -1})
 						}
 					}
 				}
@@ -661,7 +714,7 @@ func TestVerif_C39(t *testing.T) {
 	mc.Run(t, "C39", func(r *mc.R) {
 		f := c39GetForest()
 		abandon, kvprefix := c39Grid(r)
-		r.Rule("grid of histories {scheme hash|hash+snapshots|path} x canonical length x side chain (length, fork height: every height) x flushed-state block (0..len) x freeze threshold x pivot marker; " +
+		r.Rule("grid of histories {scheme hash|hash+snapshots|path without ancient dir|path with ancient dir (state histories)} x canonical length x side chain (length, fork height: every height) x flushed-state block (0..len) x freeze threshold x pivot marker {none, middle, flushed+1, flushed+2, len} x post-recovery operation {none, SetHead(k) for k=0..recovered head}; " +
 			"crash model 'abandon' = drop all memory after the history (stopWithoutSaving), one case per grid point; crash model 'kv@k' = re-open on every prefix k of the key-value write log of the whole history (each write / atomic batch is a crash point), one case per (history, k); " +
 			"distinct = distinct (parameters, crash point)")
 		r.Assume("oracle = generic invariants: re-open succeeds; head state available and is the state of the head block; header head >= snap head >= block head, all canonical; canonical index parent-linked from genesis to the head header with complete blocks and receipts up to the head block; " +
@@ -744,7 +797,7 @@ func TestVerif_C39(t *testing.T) {
 			p := abandon[i]
 			r.Case(p, func() error {
 				dir := ""
-				if p.Freeze > 0 {
+				if p.ancient() {
 					dir = filepath.Join(scratch, fmt.Sprintf("c39-%d", c39DirSeq.Add(1)))
 					defer os.RemoveAll(dir)
 				}
@@ -756,7 +809,7 @@ func TestVerif_C39(t *testing.T) {
 					return err
 				}
 				var present []c39Inserted
-				if p.Freeze == 0 {
+				if p.Freeze == 0 && p.PostOp < 0 {
 					present = h.inserted
 				}
 				h.abandon()
@@ -767,6 +820,9 @@ func TestVerif_C39(t *testing.T) {
 				rc.close()
 				if err != nil {
 					return err
+				}
+				if p.PostOp >= 0 {
+					r.Outcome("abandon/with-post-recovery-SetHead")
 				}
 				switch {
 				case rc.awaiting:
